@@ -16,6 +16,11 @@ Environment (one per process, reused by all cases of a shard because daemon shut
   * quiescence = all gateway connections on both daemons are gone again (worker pool back at its baseline) and no
     oneway-call thread is alive; polled with a generous ceiling that only guards against a hang (HarnessError, never a
     verdict).  Oneway executions are therefore complete when the log is read - no sleeping and hoping.
+  * hang guards (diagnostic / inconclusive only, never a verdict): the gateway runs with comm_timeout = 30 s (latency is
+    ~1 ms); a Pyro TimeoutError behind the gateway becomes a HarnessError; run() arms faulthandler to dump all threads
+    if a shard is still running 90 s after its budget.
+  * known findings (open, see known_findings.d/C20.json): member names that client.Proxy itself defines are executed on
+    the gateway's proxy object; a member name is cut at a newline; two $key parameters without key header crash pyro_app.
 
 Oracle (judge(), a function of the case and the observation only; pattern meaning computed WITHOUT the re module):
   path p = PATH_INFO without leading '/':
